@@ -62,12 +62,18 @@ ASSUMPTIONS = [
 ]
 
 
-def run(ctx, n_bases=None, rng_name="main"):
+def run(ctx, n_bases=None, rng_name="main", max_seconds=None):
+    import time
+
+    t_end = time.time() + max_seconds if max_seconds else None
     rng = ctx.rng(rng_name)
     D.run_dialects(ctx, ctx.rng(rng_name + "/dialects"), 8 if ctx.thorough else 2)
     n = n_bases or (3000 if ctx.thorough else 150)
     pending = []
     for i in range(n):
+        if t_end and time.time() > t_end:
+            ctx.note("search stopped after %d bases (time cap %ss)" % (i, max_seconds))
+            break
         odd = rng.random() < 0.2
         a = G.gen_schema(rng, odd=odd)
         ctx.hist("base.class", "odd" if odd else "plain")
@@ -84,7 +90,8 @@ def run(ctx, n_bases=None, rng_name="main"):
 
 
 def search(ctx):
-    run(ctx, n_bases=1000, rng_name="search")
+    # runs only when a proof or the correspondence is broken and the main run found no failing input; capped
+    run(ctx, n_bases=1000, rng_name="search", max_seconds=45)
 
 
 def classify(failure):
